@@ -102,6 +102,7 @@ type rig struct {
 	onClose  int64
 	closedMu sync.Mutex
 	closed   []string
+	killed   []string // sids of sessions the rig closed on purpose, by any cause
 	// hooks for the race mode
 	authHook   func(r *http.Request)
 	socketHook func()
@@ -132,11 +133,12 @@ func newRig() *rig {
 			}
 			return r.Header.Get("X-Verif-Auth") != "deny"
 		},
-		PingInterval: 10 * time.Minute,
-		PingTimeout:  10 * time.Minute,
+		PingInterval:  10 * time.Minute,
+		PingTimeout:   10 * time.Minute,
+		MaxBufferSize: 10000,
 	})
 	g.ts = httptest.NewServer(g.srv)
-	g.client = &http.Client{Timeout: 8 * time.Second}
+	g.client = &http.Client{Timeout: 4 * time.Second}
 	return g
 }
 
@@ -197,6 +199,8 @@ type mxRow struct {
 	Post     stateObs `json:"post"`
 	OnSocket int64    `json:"onsocket"` // NewSocketCallback invocations during the request
 	OnClose  int64    `json:"onclose"`
+	Closed   []string `json:"closedsids"` // sids of the sessions the rig has closed so far (by any cause)
+	Err      string   `json:"err,omitempty"` // the request got no HTTP answer (status 0): what the client reported
 }
 
 var sidRe = regexp.MustCompile(`\\?"sid\\?":\\?"([A-Za-z0-9_-]*)\\?"`)
@@ -273,11 +277,12 @@ func (g *rig) do(phase string, rq reqSpec, rr *recReader, conns *[]*websocket.Co
 			hdr.Set("X-Verif-Auth", "deny")
 		}
 		conn, resp, err := websocket.Dial(ctx, strings.Replace(u, "http://", "ws://", 1), &websocket.DialOptions{HTTPClient: g.client, HTTPHeader: hdr})
+		row.Resp.Code = -1
 		if resp == nil {
-			return row, fmt.Errorf("websocket dial %s: %v", u, err)
+			row.Resp.Body, row.Err = "other", fmt.Sprint(err)
+			return g.finish(row, rr, s0, c0), nil
 		}
 		row.Resp.Status = resp.StatusCode
-		row.Resp.Code = -1
 		if err != nil {
 			body, _ := io.ReadAll(resp.Body)
 			row.Resp.Code, row.Resp.SID, row.Resp.Body = classifyBody(resp.StatusCode, body, false)
@@ -292,7 +297,8 @@ func (g *rig) do(phase string, rq reqSpec, rr *recReader, conns *[]*websocket.Co
 				_, msg, rerr := conn.Read(rctx)
 				rcancel()
 				if rerr != nil {
-					return row, fmt.Errorf("websocket handshake %s: no OPEN packet: %v", u, rerr)
+					row.Err = fmt.Sprintf("no OPEN packet: %v", rerr)
+					msg = nil
 				}
 				row.Resp.Code, row.Resp.SID, row.Resp.Body = classifyBody(101, msg, false)
 				// newSocket (store.set) runs after the OPEN packet was written: wait for it
@@ -329,13 +335,19 @@ func (g *rig) do(phase string, rq reqSpec, rr *recReader, conns *[]*websocket.Co
 		}
 		resp, err := g.client.Do(req)
 		if err != nil {
-			return row, fmt.Errorf("%s %s: %v", rq.Method, u, err)
+			// no answer (e.g. a poll that blocks on a session that should not exist any more)
+			row.Resp.Code, row.Resp.Body, row.Err = -1, "other", fmt.Sprint(err)
+			return g.finish(row, rr, s0, c0), nil
 		}
 		b, _ := io.ReadAll(resp.Body)
 		resp.Body.Close()
 		row.Resp.Status = resp.StatusCode
 		row.Resp.Code, row.Resp.SID, row.Resp.Body = classifyBody(resp.StatusCode, b, rq.J)
 	}
+	return g.finish(row, rr, s0, c0), nil
+}
+
+func (g *rig) finish(row mxRow, rr *recReader, s0, c0 int64) mxRow {
 	row.Post = g.state()
 	row.OnSocket = atomic.LoadInt64(&g.onSocket) - s0
 	row.OnClose = atomic.LoadInt64(&g.onClose) - c0
@@ -343,7 +355,8 @@ func (g *rig) do(phase string, rq reqSpec, rr *recReader, conns *[]*websocket.Co
 	for _, b := range rr.take() {
 		row.Rnd = append(row.Rnd, vk.Ints(b))
 	}
-	return row, nil
+	row.Closed = append([]string{}, g.killed...)
+	return row
 }
 
 // drain keeps reading a websocket connection, as a real client does (this is also what answers
@@ -365,7 +378,7 @@ func (g *rig) socket(sid string) eio.ServerSocket {
 }
 
 func (g *rig) waitGone(sid string) error {
-	deadline := time.Now().Add(5 * time.Second)
+	deadline := time.Now().Add(2 * time.Second)
 	for time.Now().Before(deadline) {
 		found := false
 		for _, s := range g.srv.VerifSessions() {
@@ -409,9 +422,10 @@ func matrixMain(seed uint64, thorough bool, out *vk.Out) error {
 		}
 	}()
 	put := func(phase string, rq reqSpec) error {
-		if rq.SIDKind == "live" && rq.Method == "GET" && rq.Tr == "polling" {
+		if rq.SID != "" && rq.Method == "GET" && rq.Tr == "polling" {
 			// a poll on an empty queue would block for pollTimeout: give it something to return
-			if s := g.socket(rq.SID); s != nil && !g.srv.IsClosed() {
+			// (also for sessions that were closed: should one still be served, the answer is recorded)
+			if s := g.socket(rq.SID); s != nil && s.TransportName() == "polling" && !g.srv.IsClosed() {
 				p, _ := parser.NewPacket(parser.PacketTypeMessage, false, []byte("x"))
 				s.Send(p)
 			}
@@ -447,41 +461,59 @@ func matrixMain(seed uint64, thorough bool, out *vk.Out) error {
 	if err != nil {
 		return err
 	}
-	// closed sessions: closed by the server / by the client's CLOSE packet / websocket hang-up
-	var closedSids []string
-	for i := 0; i < 4; i++ {
-		sid, err := open("polling", false)
-		if err != nil {
-			return err
-		}
-		if i%2 == 0 {
-			g.socket(sid).Close()
-		} else {
-			resp, err := g.client.Post(g.url(reqSpec{EIO: "4", Tr: "polling", SID: sid}), "text/plain", strings.NewReader("1"))
-			if err != nil {
-				return err
-			}
+	// closed sessions, one or two per cause.  A session that fails to leave the store is NOT an
+	// error of the rig: it is kept in the "closed" column (with its cause) and in `closedsids`,
+	// so that the oracle judges the requests that carry its sid.
+	var closedSids, closedCause []string
+	var notGone []map[string]string
+	postTo := func(sid, ctype string, body io.Reader) {
+		resp, err := g.client.Post(g.url(reqSpec{EIO: "4", Tr: "polling", SID: sid}), ctype, body)
+		if err == nil {
 			io.Copy(io.Discard, resp.Body)
 			resp.Body.Close()
 		}
-		if err := g.waitGone(sid); err != nil {
-			return err
-		}
-		closedSids = append(closedSids, sid)
 	}
-	{
-		sid, err := open("websocket", true)
+	causes := []string{"server-close", "client-close-packet", "parse-error", "oversized-body", "ping-timeout", "websocket-drop", "server-close", "client-close-packet"}
+	for _, cause := range causes {
+		ws := cause == "websocket-drop"
+		if cause == "ping-timeout" {
+			g.srv.VerifSetPing(40*time.Millisecond, 40*time.Millisecond)
+		}
+		tr := "polling"
+		if ws {
+			tr = "websocket"
+		}
+		sid, err := open(tr, ws)
+		if cause == "ping-timeout" {
+			g.srv.VerifSetPing(10*time.Minute, 10*time.Minute)
+		}
 		if err != nil {
 			return err
 		}
-		c := conns[len(conns)-1]
-		conns = conns[:len(conns)-1]
-		c.Close(websocket.StatusNormalClosure, "")
+		switch cause {
+		case "server-close":
+			g.socket(sid).Close()
+		case "client-close-packet":
+			postTo(sid, "text/plain", strings.NewReader("1"))
+		case "parse-error":
+			postTo(sid, "text/plain", strings.NewReader("\x1e\x1ezz:not a packet"))
+		case "oversized-body":
+			postTo(sid, "text/plain", strings.NewReader("4"+strings.Repeat("x", 20000)))
+		case "ping-timeout":
+			// nothing to do: nobody answers the ping
+		case "websocket-drop":
+			c := conns[len(conns)-1]
+			conns = conns[:len(conns)-1]
+			c.Close(websocket.StatusNormalClosure, "")
+		}
+		g.killed = append(g.killed, sid)
 		if err := g.waitGone(sid); err != nil {
-			return err
+			notGone = append(notGone, map[string]string{"sid": sid, "cause": cause})
 		}
 		closedSids = append(closedSids, sid)
+		closedCause = append(closedCause, cause)
 	}
+	out.Put(map[string]any{"phase": "closed-sessions", "sids": closedSids, "causes": closedCause, "not_gone": notGone, "store": g.state().Store})
 	unknown := func() string {
 		switch r.Intn(4) {
 		case 0:
@@ -517,6 +549,15 @@ func matrixMain(seed uint64, thorough bool, out *vk.Out) error {
 			return closedSids[i%len(closedSids)]
 		}
 		return ""
+	}
+	nclosed := 0
+	pick := func(kind string, i int) (string, string) { // sid and sid kind (closed sessions rotate over the causes)
+		if kind == "closed" {
+			nclosed++
+			j := nclosed % len(closedSids)
+			return closedSids[j], "closed:" + closedCause[j]
+		}
+		return mkSid(kind, i), kind
 	}
 	var specs []reqSpec
 	i := 0
@@ -590,7 +631,7 @@ func matrixMain(seed uint64, thorough bool, out *vk.Out) error {
 		specs = append(specs, perm...)
 	}
 	for k, sp := range specs {
-		sp.SID = mkSid(sp.SIDKind, k)
+		sp.SID, sp.SIDKind = pick(sp.SIDKind, k)
 		if err := put("open", sp); err != nil {
 			return err
 		}
@@ -662,7 +703,7 @@ func matrixMain(seed uint64, thorough bool, out *vk.Out) error {
 		if !thorough && !sp.WsUp && k%2 == 1 { // quick tier: every other request of the matrix (all answers are 503)
 			continue
 		}
-		sp.SID = mkSid(sp.SIDKind, k)
+		sp.SID, sp.SIDKind = pick(sp.SIDKind, k)
 		if err := put("closed", sp); err != nil {
 			return err
 		}
